@@ -18,4 +18,14 @@ CLAIMS = {
                 'switch-on-length form and constant-offset stores, any other shape is exit 2 (analysis broken), never a pass.',
         'technique': 'CFG path enumeration + constant-offset pointer tracking + length lattice on switch edges + cast-chain typing (custom clang plugin facts)',
     },
+    'C12': {
+        'text': 'Decides the contract as a path property of the one loop that consumes text (all three encodings are separate '
+                'template instantiations, each analysed): the decode of a character is followed by a NUL test whose zero edge '
+                'leaves the loop and which dominates the iterator advance and appendSlot; exactly one decode per iteration; the '
+                'consumed-character counter is returned and stored into both segment counts on every path.  The number of code '
+                'units a single decode may look ahead is C11\'s clause (continuation-guarded look-ahead), not this one.',
+        'note': 'Trusted: clang 14 CFG, tools/grfacts, rules/c12.py.  Unknown loop shapes are exit 2.  Byte-level look-ahead inside '
+                'one UTF-8 decode is covered by C11 CONTGUARD.',
+        'technique': 'CFG dominance / reachability path rule over template instantiations + def-use of the consumed count',
+    },
 }
